@@ -1,7 +1,7 @@
 (* C04 — property theorems only (every proof is `exact <lemma>` or a closed computation). *)
 From Coq Require Import List NArith ZArith Bool.
 Import ListNotations.
-From VF Require Import C04.Model C04.Inst C04.Proofs C04.ProofsSvc C04.ProofsAead gen.Gen_C04.
+From VF Require Import C04.Model C04.Inst C04.Proofs C04.ProofsDer C04.ProofsSvc C04.ProofsAead gen.Gen_C04.
 Local Open Scope N_scope.
 
 (* ===== codecs (all inputs) ===== *)
@@ -33,6 +33,19 @@ Theorem der_decode_injective : forall (a b : bytes) (r s : Z),
 Proof. exact der_decode_inj_l. Qed.
 Print Assumptions der_decode_injective.
 
+(* DER round trip (Go's encoding/asn1 rules: minimal two's-complement INTEGER with a 0x00 pad when the top bit is set,
+   short / minimal long length form): for ALL non-negative r, s of up to k <= 1000 bytes *)
+Theorem der_roundtrip : forall (r s : Z) (k : nat),
+  (k <= 1000)%nat -> (0 <= r < 256 ^ Z.of_nat k)%Z -> (0 <= s < 256 ^ Z.of_nat k)%Z ->
+  der_decode (der_encode r s) = Some (r, s).
+Proof. exact der_roundtrip_l. Qed.
+Print Assumptions der_roundtrip.
+
+(* every value in the range of its encoding is carried by the codec (DER, P1363 of every size, opaque) *)
+Theorem codec_carries_all : forall (e : senc) (v : sval), sval_fits e v -> codec_ok e v.
+Proof. exact sval_fits_codec_ok. Qed.
+Print Assumptions codec_carries_all.
+
 (* the P1363 codec carries every in-range value for every curve size of the table; opaque encodings trivially *)
 Theorem codec_carries_p1363 : forall (n : nat) (r s : Z),
   (1 <= n <= 66)%nat -> (0 <= r < 256 ^ Z.of_nat n)%Z -> (0 <= s < 256 ^ Z.of_nat n)%Z ->
@@ -55,17 +68,20 @@ Print Assumptions table_nonce_size_right.
 
 (* ===== sign -> export -> re-import in another KMS -> verify ===== *)
 (* Ideal-primitive assumptions are the visible hypotheses: correctness of the core scheme, and that a core signature
-   is bound to its key and message.  `codec_ok` (the codec carries the produced value) is discharged for all P1363
-   sizes by codec_carries_p1363 and for opaque encodings by codec_ok_opaque. *)
+   is bound to its key and message.  `sval_fits` only says that the core signature VALUE is in the range of the key
+   type's encoding (0 <= r,s < 256^n for P1363 size n; non-negative and at most 1000 bytes for DER). *)
 Theorem sign_verify_export :
   forall (msg : Type) (core_sign : N -> msg -> N -> sval) (core_verify : N -> msg -> sval -> bool),
   (forall k m rd, core_verify k m (core_sign k m rd) = true) ->
   forall (rw : ktrow) (kid mat : N) (m : msg) (rd : N),
   In rw table -> kt_kind rw = KSig -> kt_creatable rw = true ->
-  codec_ok (kt_enc rw) (core_sign mat m rd) ->
+  sval_fits (kt_enc rw) (core_sign mat m rd) ->
   exists sig, svc_sign core_sign (created_key rw kid mat) m rd = Some sig /\
               svc_verify core_verify (reimport (created_key rw kid mat) (kt_import_enc rw)) sig m = true.
-Proof. intros msg cs cv Hc rw kid mat m rd. exact (sign_verify_export_table msg cs cv Hc rw kid mat m rd). Qed.
+Proof.
+  intros msg cs cv Hc rw kid mat m rd Hin Hk Hcr Hf.
+  exact (sign_verify_export_table msg cs cv Hc rw kid mat m rd Hin Hk Hcr (sval_fits_codec_ok _ _ Hf)).
+Qed.
 Print Assumptions sign_verify_export.
 
 Theorem other_key_or_message_rejected :
@@ -130,26 +146,56 @@ Theorem encrypt_layout_split_join :
 Proof. exact encrypt_layout. Qed.
 Print Assumptions encrypt_layout_split_join.
 
-(* ===== AEAD over keysets with several keys (rotation) ===== *)
-(* Ideal AEAD core as visible hypotheses (decryption inverts encryption; what decrypts was produced; a body binds key,
-   nonce, aad and message).  `homogeneous p t` = one primitive and one prefix type, which is what Create(kt) followed by
-   any number of Rotate(kt) produces; keysets mixing key types are exercised against the real service but not proved. *)
+(* ===== AEAD over keysets with several keys ===== *)
+(* Ideal AEAD core as visible hypotheses: decryption inverts encryption; only produced bodies decrypt; a body binds
+   key, nonce, aad and message; no body is a proper suffix of another body.  The keysets are ARBITRARY: any number of
+   keys, any primary, keys of different primitives (12/24/16 byte nonces) and prefix types, as Rotate with another key
+   type produces. *)
 Theorem aead_roundtrip_multi :
   forall (raw_enc : N -> bytes -> bytes -> bytes -> bytes) (raw_dec : N -> bytes -> bytes -> bytes -> option bytes),
   (forall k n a m, raw_dec k n a (raw_enc k n a m) = Some m) ->
   (forall k n a c m, raw_dec k n a c = Some m -> c = raw_enc k n a m) ->
   (forall k n a m k' n' a' m', raw_enc k n a m = raw_enc k' n' a' m' -> k = k' /\ n = n' /\ a = a' /\ m = m') ->
-  forall (p : prim) (t : ptype) (ks ks' : keyset) (e : entry) (nonce a m c n : bytes),
-  primary ks = Some e -> e_prim e = p -> length nonce = real_iv p ->
-  homogeneous p t (ks_entries ks') -> In e (ks_entries ks') ->
+  (forall k n a m k' n' a' m' t, raw_enc k n a m = t ++ raw_enc k' n' a' m' -> t = []) ->
+  forall (ks ks' : keyset) (e : entry) (nonce a m c n : bytes),
+  primary ks = Some e -> length nonce = real_iv (e_prim e) -> In e (ks_entries ks') ->
   svc_encrypt raw_enc ks nonce a m = Some (c, n) ->
   svc_decrypt raw_dec ks' c a n = Some m.
-Proof. intros re rd H1 H2 H3. exact (aead_roundtrip_multi_l re rd H1 H2 H3). Qed.
+Proof. intros re rd H1 H2 H3 H4. exact (aead_roundtrip_mixed_l re rd H1 H2 H3 H4). Qed.
 Print Assumptions aead_roundtrip_multi.
 
-(* whatever Decrypt accepts (any number of keys in the keyset) is exactly a body produced under one of ITS keys with
-   exactly this nonce and this aad *)
-Theorem aead_accepts_only_produced :
+(* a genuine ciphertext presented to ANY keyset: if accepted then under a key of that keyset, with exactly the original
+   nonce and associated data, and the result is the original message *)
+Theorem aead_genuine_accepted_only_unaltered :
+  forall (raw_enc : N -> bytes -> bytes -> bytes -> bytes) (raw_dec : N -> bytes -> bytes -> bytes -> option bytes),
+  (forall k n a m, raw_dec k n a (raw_enc k n a m) = Some m) ->
+  (forall k n a c m, raw_dec k n a c = Some m -> c = raw_enc k n a m) ->
+  (forall k n a m k' n' a' m', raw_enc k n a m = raw_enc k' n' a' m' -> k = k' /\ n = n' /\ a = a' /\ m = m') ->
+  (forall k n a m k' n' a' m' t, raw_enc k n a m = t ++ raw_enc k' n' a' m' -> t = []) ->
+  forall (ks' : keyset) (a' n' : bytes) (k : N) (n a m y : bytes),
+  (5 <= length n')%nat -> length n' = length n ->
+  svc_decrypt raw_dec ks' (raw_enc k n a m) a' n' = Some y ->
+  In k (map e_mat (ks_entries ks')) /\ n' = n /\ a' = a /\ y = m.
+Proof. intros re rd H1 H2 H3 H4. exact (decrypt_genuine_gen re rd H1 H2 H3 H4). Qed.
+Print Assumptions aead_genuine_accepted_only_unaltered.
+
+(* altered nonce (same length), altered associated data, or a keyset without the key: rejected — ANY keyset *)
+Theorem aead_altered_or_other_key_rejected :
+  forall (raw_enc : N -> bytes -> bytes -> bytes -> bytes) (raw_dec : N -> bytes -> bytes -> bytes -> option bytes),
+  (forall k n a m, raw_dec k n a (raw_enc k n a m) = Some m) ->
+  (forall k n a c m, raw_dec k n a c = Some m -> c = raw_enc k n a m) ->
+  (forall k n a m k' n' a' m', raw_enc k n a m = raw_enc k' n' a' m' -> k = k' /\ n = n' /\ a = a' /\ m = m') ->
+  (forall k n a m k' n' a' m' t, raw_enc k n a m = t ++ raw_enc k' n' a' m' -> t = []) ->
+  forall (ks' : keyset) (k : N) (n a m n' a' : bytes),
+  (5 <= length n')%nat -> length n' = length n ->
+  (n' <> n \/ a' <> a \/ ~ In k (map e_mat (ks_entries ks'))) ->
+  svc_decrypt raw_dec ks' (raw_enc k n a m) a' n' = None.
+Proof. intros re rd H1 H2 H3 H4. exact (aead_altered_rejected_gen re rd H1 H2 H3 H4). Qed.
+Print Assumptions aead_altered_or_other_key_rejected.
+
+(* keysets of ONE key type (Create + Rotate with the same type), without the no-suffix hypothesis: whatever Decrypt
+   accepts — genuine or not — is exactly a body produced under one of ITS keys with exactly this nonce and this aad *)
+Theorem aead_accepts_only_produced_one_key_type :
   forall (raw_enc : N -> bytes -> bytes -> bytes -> bytes) (raw_dec : N -> bytes -> bytes -> bytes -> option bytes),
   (forall k n a m, raw_dec k n a (raw_enc k n a m) = Some m) ->
   (forall k n a c m, raw_dec k n a c = Some m -> c = raw_enc k n a m) ->
@@ -159,20 +205,21 @@ Theorem aead_accepts_only_produced :
   svc_decrypt raw_dec ks c a n = Some m ->
   exists e, In e (ks_entries ks) /\ c = raw_enc (e_mat e) n a m.
 Proof. intros re rd H1 H2 H3. exact (decrypt_accepts_only_produced_l re rd H1 H2 H3). Qed.
-Print Assumptions aead_accepts_only_produced.
+Print Assumptions aead_accepts_only_produced_one_key_type.
 
-(* the genuine ciphertext with an altered nonce, altered associated data, or under a keyset without the key: rejected *)
-Theorem aead_altered_or_other_key_rejected :
-  forall (raw_enc : N -> bytes -> bytes -> bytes -> bytes) (raw_dec : N -> bytes -> bytes -> bytes -> option bytes),
-  (forall k n a m, raw_dec k n a (raw_enc k n a m) = Some m) ->
-  (forall k n a c m, raw_dec k n a c = Some m -> c = raw_enc k n a m) ->
-  (forall k n a m k' n' a' m', raw_enc k n a m = raw_enc k' n' a' m' -> k = k' /\ n = n' /\ a = a' /\ m = m') ->
-  forall (p : prim) (t : ptype) (ks' : keyset) (k : N) (n a m n' a' : bytes),
-  homogeneous p t (ks_entries ks') -> length n' = real_iv p ->
-  (n' <> n \/ a' <> a \/ ~ In k (map e_mat (ks_entries ks'))) ->
-  svc_decrypt raw_dec ks' (raw_enc k n a m) a' n' = None.
-Proof. intros re rd H1 H2 H3. exact (aead_altered_rejected_l re rd H1 H2 H3). Qed.
-Print Assumptions aead_altered_or_other_key_rejected.
+(* ===== signature/verifier.PublicKeyVerifier (ECDSA): a byte appended to an accepted DER signature is rejected ===== *)
+Theorem pkv_appended_byte_rejected : forall (n : nat) (b : bytes) (r s : Z) (x : N),
+  (2 * n < length b)%nat -> pkv_decode Fixed n b = Some (r, s) -> pkv_decode Fixed n (b ++ [x]) = None.
+Proof. exact pkv_appended_rejected_l. Qed.
+Print Assumptions pkv_appended_byte_rejected.
+
+(* HISTORICAL REFUTATION (before fix adba44c): the verifier ignored bytes after the DER SEQUENCE *)
+Theorem pkv_appended_byte_asis_refuted :
+  let b := der_encode (2 ^ 255 + 8) (2 ^ 255 + 4) in
+  (2 * 32 <? length b)%nat = true /\ pkv_decode AsIs 32 b = Some (2 ^ 255 + 8, 2 ^ 255 + 4)%Z /\
+  pkv_decode AsIs 32 (b ++ [0]) = Some (2 ^ 255 + 8, 2 ^ 255 + 4)%Z /\ pkv_decode Fixed 32 (b ++ [0]) = None.
+Proof. vm_compute. repeat split. Qed.
+Print Assumptions pkv_appended_byte_asis_refuted.
 
 (* ===== non-vacuity ===== *)
 Example p1363_leading_zero_66 :
@@ -214,6 +261,7 @@ Example aead_instance_and_rotation :
   (forall k n a m, inst_dec k n a (inst_enc k n a m) = Some m) /\
   (forall k n a c m, inst_dec k n a c = Some m -> c = inst_enc k n a m) /\
   (forall k n a m k' n' a' m', inst_enc k n a m = inst_enc k' n' a' m' -> k = k' /\ n = n' /\ a = a' /\ m = m') /\
+  (forall k n a m k' n' a' m' t, inst_enc k n a m = t ++ inst_enc k' n' a' m' -> t = []) /\
   (let e1 := {| e_id := 1111; e_pt := PTink; e_prim := PGcm; e_mat := 1 |} in
    let e2 := {| e_id := 2222; e_pt := PTink; e_prim := PGcm; e_mat := 2 |} in
    let old := {| ks_entries := [e1]; ks_primary := 0 |} in
@@ -224,4 +272,26 @@ Example aead_instance_and_rotation :
                     svc_decrypt inst_dec {| ks_entries := [e2]; ks_primary := 0 |} c [7] n = None
    | None => False
    end).
-Proof. split; [exact inst_dec_enc|]. split; [exact inst_auth|]. split; [exact inst_bind|]. vm_compute. repeat split. Qed.
+Proof. split; [exact inst_dec_enc|]. split; [exact inst_auth|]. split; [exact inst_bind|]. split; [exact inst_nosuffix|]. vm_compute. repeat split. Qed.
+
+(* a keyset mixing key types: AES-GCM (12-byte nonce, Tink prefix) rotated to XChaCha20 (24-byte nonce) and to a RAW
+   AES-GCM key; ciphertexts of every stage decrypt under the final keyset, not under a keyset lacking the key *)
+Example aead_mixed_rotation :
+  let g := {| e_id := 1111; e_pt := PTink; e_prim := PGcm; e_mat := 1 |} in
+  let x := {| e_id := 2222; e_pt := PTink; e_prim := PXChacha; e_mat := 2 |} in
+  let w := {| e_id := 3333; e_pt := PRaw; e_prim := PGcm; e_mat := 3 |} in
+  let all := {| ks_entries := [g; x; w]; ks_primary := 2 |} in
+  let n12 := [1;2;3;4;5;6;7;8;9;10;11;12] in
+  let n24 := n12 ++ n12 in
+  match svc_encrypt inst_enc {| ks_entries := [g]; ks_primary := 0 |} n12 [7] [42],
+        svc_encrypt inst_enc {| ks_entries := [g; x]; ks_primary := 1 |} n24 [7] [43],
+        svc_encrypt inst_enc all n12 [7] [44] with
+  | Some (c1, m1), Some (c2, m2), Some (c3, m3) =>
+      length m1 = 12%nat /\ length m2 = 24%nat /\
+      svc_decrypt inst_dec all c1 [7] m1 = Some [42] /\ svc_decrypt inst_dec all c2 [7] m2 = Some [43] /\
+      svc_decrypt inst_dec all c3 [7] m3 = Some [44] /\
+      svc_decrypt inst_dec {| ks_entries := [g; w]; ks_primary := 0 |} c2 [7] m2 = None /\
+      svc_decrypt inst_dec all c2 [8] m2 = None
+  | _, _, _ => False
+  end.
+Proof. vm_compute. repeat split. Qed.
